@@ -97,6 +97,11 @@ func ZZ_C09_k7_insert_nonregression() {
 			zzAssume(bytes.Compare(s, e) < 0)
 		}
 		r := zzBareRegion(id, conf, ver, s, e)
+		// a cached description may have been invalidated (region error, store failure) or have
+		// outlived its TTL in the meantime: it stays in the index and still counts as newer
+		if cached := zzSnapIndex(mu).items; len(cached) > 0 && zzBool("invalidate") {
+			cached[zzChoice("invalidated", len(cached))].invalidate(Other)
+		}
 		pre := zzSnapIndex(mu)
 		staleLatest := false
 		if lv, ok := pre.latest[id]; ok {
